@@ -14,7 +14,16 @@
                   lies on the curve and is annihilated by n.
    kind "keygen"  one state per (curve, byte order): random octets -> admitted private keys.
    kind "dh"      one state per (curve, private key d): the row Q |-> x(d*Q), x(h*d*Q) over the candidate peers.
-                  Invariant DHSym: for Q = q*G both parties obtain the x-coordinate of (d*q mod n)*G.          *)
+                  Invariant DHSym: for Q = q*G both parties obtain the x-coordinate of (d*q mod n)*G.
+   kind "forms"   one state per (curve, byte order): valid points d*G chosen so that the parities of the most and of the
+                  least significant octet of y take all four combinations (two points per class), each in EVERY
+                  encoding import accepts -- compressed, packed 04, hybrid 06|07 with the agreeing and with the
+                  contradicting prefix, separate, concat -- with the verdict of Import (validation on / off).
+                  Invariant FormsSound: all four classes occur on a multi-octet field, every point is a valid key,
+                  every standard encoding of it must be accepted as that point, the contradicting hybrid prefix "may".
+   kind "priv"    one state per (curve, byte order): private-key octet strings (every octet value on the 8-bit
+                  fields; 0, 1, 2, n-2, n-1, n, n+1, 2n-1, all-ones, shorter and longer strings elsewhere) with the
+                  verdict of PrivImport and the encodings of d*G.  Invariant PrivSound: refused <=> d = 0 or d >= n.   *)
 EXTENDS KeyCodec, EcCurves, Json, Integers
 CONSTANTS CurveNames, Kinds, Seed,
           ScanPrefixes,    \* first octets tried for the prefixed forms
@@ -128,6 +137,48 @@ DhRow(cv, d) ==
    IN [i \in 1..Len(ps) |-> IF ps[i].pt = Inf THEN << -1, -1 >>
                             ELSE << xo(DHPoint(cv, d, ps[i].pt, FALSE)), xo(DHPoint(cv, d, ps[i].pt, TRUE)) >>]
 
+(* ------------------------------------------------------------------ kinds "forms" and "priv" *)
+SeqOfSet(S) == LET RECURSIVE F(_, _)
+                   F(U, acc) == IF U = { } THEN acc ELSE LET x == CHOOSE y \in U : TRUE IN F(U \ { x }, Append(acc, x))
+               IN F(S, << >>)
+FormTags == << "compressed", "packed", "hybrid", "hybrid-mismatch", "separate", "concat" >>
+FormEnc(cv, o, tag, P) == IF tag = "hybrid" THEN Hybrid(cv, o, P, TRUE)
+                          ELSE IF tag = "hybrid-mismatch" THEN Hybrid(cv, o, P, FALSE)
+                          ELSE EncRec(cv, o, tag, P)
+FormSpan(cv) == IF cv.n - 1 < 64 THEN cv.n - 1 ELSE 64
+\* for every class of octet parities the two least scalars d in 1..FormSpan whose d*G is in the class
+FormScalars(cv) ==
+   LET K == FormSpan(cv)   tb == MulTable(cv, G(cv), K)
+       cls == [d \in 1..K |-> YOctetParities(cv, tb[d + 1])]
+       least(S) == CHOOSE d \in S : \A e \in S : d <= e
+       two(S) == IF S = { } THEN { } ELSE LET d1 == least(S) IN { d1 } \cup (IF S \ { d1 } = { } THEN { } ELSE { least(S \ { d1 }) })
+   IN UNION { two({ d \in 1..K : cls[d] = pc }) : pc \in { 0, 1 } \X { 0, 1 } }
+FormRow(cv, o, d) ==
+   LET P == PubT(cv, d) IN
+   [ d |-> d, pt |-> P, par |-> YOctetParities(cv, P),
+     encs |-> [i \in 1..Len(FormTags) |->
+                  LET e == FormEnc(cv, o, FormTags[i], P)
+                  IN [tag |-> FormTags[i], x |-> e.x, y |-> e.y, on |-> ImportT(cv, o, e, TRUE), off |-> ImportT(cv, o, e, FALSE)]] ]
+FormRows(cv, o) == LET ds == SetToSeq(FormScalars(cv)) IN [i \in 1..Len(ds) |-> FormRow(cv, o, ds[i])]
+
+\* private-key octet strings
+PrivStrings(cv, o) ==
+   LET Bn == FieldBytes(cv)   n == cv.n   top == Top(cv)
+       full == IF Small(cv) THEN 0..255
+               ELSE { 0, 1, 2, 3, 255, 256, 257, n - 2, n - 1, n, n + 1, top - 1, top }
+                    \cup { v \in { (2 * n) - 1, 2 * n } : v <= top } \cup Rnd(Seed + 23, 4, top + 1, { })
+       short == IF Bn = 1 THEN { } ELSE { Octets(v, Bn - 1, o) : v \in { 0, 1, 2, 127, 255 } }
+       \* one octet more than the field: leading zero octet (the value fits the field) and values that need the octet
+       long == { Octets(v, Bn + 1, o) : v \in { 0, 1, 2, n - 1, n, n + 1, top, top + 1, (256 * (top + 1)) - 1 } }
+   IN { Octets(v, Bn, o) : v \in full } \cup short \cup long
+PrivRow(cv, o, ds) ==
+   LET v == PrivImportW(cv, o, ds, LAMBDA d : PubT(cv, d))   d == CoordVal(o, ds)
+   IN [ ds |-> ds, d |-> d, st |-> v.st,
+        pub |-> IF v.st = "reject" THEN << >>
+                ELSE << [ pt |-> v.pt, comp |-> Encode(cv, o, "compressed", v.pt).x, packed |-> Encode(cv, o, "packed", v.pt).x,
+                          sepx |-> Encode(cv, o, "separate", v.pt).x, sepy |-> Encode(cv, o, "separate", v.pt).y ] >> ]
+PrivRows(cv, o) == LET ss == SeqOfSet(PrivStrings(cv, o)) IN [i \in 1..Len(ss) |-> PrivRow(cv, o, ss[i])]
+
 (* ------------------------------------------------------------------ states *)
 CurveSet == { CurveByName(nm) : nm \in CurveNames }
 Ords == { "be", "le" }
@@ -145,7 +196,11 @@ InitKeyGen == /\ vKind = "keygen" /\ "keygen" \in Kinds /\ vCurve \in CurveSet /
 InitDh     == /\ vKind = "dh" /\ "dh" \in Kinds /\ vCurve \in CurveSet /\ vOrd = "-" /\ vVal = TRUE
               /\ vSel \in (IF 0 \in DhKeys /\ Small(vCurve) THEN 1..(vCurve.n - 1) ELSE { }) \cup { DCode(vCurve, dc) : dc \in DhKeys \ { 0 } }
               /\ vOut = DhRow(vCurve, vSel)
-Init == InitPoints \/ InitScan \/ InitKeyGen \/ InitDh
+InitForms  == /\ vKind = "forms" /\ "forms" \in Kinds /\ vCurve \in CurveSet /\ vOrd \in Ords /\ vVal = TRUE /\ vSel = 0
+              /\ vOut = FormRows(vCurve, vOrd)
+InitPriv   == /\ vKind = "priv" /\ "priv" \in Kinds /\ vCurve \in CurveSet /\ vOrd \in Ords /\ vVal = TRUE /\ vSel = 0
+              /\ vOut = PrivRows(vCurve, vOrd)
+Init == InitPoints \/ InitScan \/ InitKeyGen \/ InitDh \/ InitForms \/ InitPriv
 Next == FALSE /\ UNCHANGED vars
 Spec == Init /\ [][Next]_vars
 
@@ -190,6 +245,26 @@ DHSym == vKind = "dh" =>
       IN /\ vOut[i][1] = z[1]
          /\ vOut[i][1] = DHPoint(vCurve, q, me, FALSE)[1]               \* the peer computes the same
          /\ (LET zh == DHPoint(vCurve, q, me, TRUE) IN vOut[i][2] = (IF zh = Inf THEN -1 ELSE zh[1]))
+
+FormsSound == vKind = "forms" =>
+   /\ (FieldBytes(vCurve) > 1 => { vOut[i].par : i \in 1..Len(vOut) } = { 0, 1 } \X { 0, 1 })
+   /\ Len(vOut) > 0
+   /\ \A i \in 1..Len(vOut) : LET r == vOut[i] IN
+         /\ r.pt # Inf /\ ValidKey(vCurve, r.pt) /\ r.pt = PubOf(vCurve, r.d) /\ r.par[2] = r.pt[2] % 2
+         /\ \A j \in 1..Len(r.encs) : LET e == r.encs[j] IN
+               IF Collides(vCurve, e.tag, r) THEN TRUE
+               ELSE IF e.tag = "hybrid-mismatch" THEN e.on = May(r.pt) /\ e.off = May(r.pt) /\ e.x[1] = 6 + ((r.pt[2] + 1) % 2)
+               ELSE /\ e.on = Ok(r.pt) /\ e.off = Ok(r.pt)              \* "accepts every standard encoding of such a point"
+                    /\ (e.tag = "hybrid" => e.x[1] = 6 + (r.pt[2] % 2) /\ Len(e.x) = 1 + 2 * FieldBytes(vCurve))
+PrivSound == vKind = "priv" =>
+   /\ (Small(vCurve) => { r \in { vOut[i] : i \in 1..Len(vOut) } : Len(r.ds) = 1 } = { PrivRow(vCurve, vOrd, << w >>) : w \in 0..255 })
+   /\ \A i \in 1..Len(vOut) : LET r == vOut[i] IN
+         /\ (r.st = "reject") = (r.d = 0 \/ r.d >= vCurve.n)
+         /\ (r.st = "may") = (r.d \in 1..(vCurve.n - 1) /\ Len(r.ds) > FieldBytes(vCurve))
+         /\ (r.st # "reject" => /\ r.pub[1].pt = PubOf(vCurve, r.d) /\ r.pub[1].pt # Inf /\ ValidKey(vCurve, r.pub[1].pt)
+                                /\ Import(vCurve, vOrd, [x |-> r.pub[1].packed, y |-> NoBlock], TRUE) = Ok(r.pub[1].pt))
+   /\ \E i \in 1..Len(vOut) : vOut[i].d = vCurve.n /\ Len(vOut[i].ds) = FieldBytes(vCurve)
+   /\ \E i \in 1..Len(vOut) : vOut[i].d = vCurve.n - 1 /\ vOut[i].st = "ok"
 
 Emit == PrintT(ToJson([ kind |-> vKind, curve |-> vCurve.name, order |-> vOrd, val |-> vVal, sel |-> vSel, out |-> vOut ]))
 =============================================================================
